@@ -28,6 +28,11 @@ Print Assumptions C02_src_handler_bracketed.
 Theorem C02_src_skeletons_solo_ok : forallb solo_ok src_entry_points = true.
 Proof. vm_compute. reflexivity. Qed.
 Print Assumptions C02_src_skeletons_solo_ok.
+(* exceptions are outside the model (a skeleton has one exit); what makes the skeleton the whole truth is that every lock of
+   the two functions is a QMutexLocker, released on every exit path — also when a user handler throws *)
+Theorem C02_src_locks_scope_bound : src_locks_scope_bound = true.
+Proof. vm_compute. reflexivity. Qed.
+Print Assumptions C02_src_locks_scope_bound.
 (* ALL three entry points are bracketed by one and the same mutex (the handler mutex M): pipeline runs — every handler
    incl. Sink::send — exclude each other however the threads of a run mix the entry points *)
 Theorem C02_src_entry_points_bracketed_family : bracketed_family src_entry_points = true.
